@@ -21,8 +21,9 @@ Environment / service steps (`Label`): `write` (journal append; the `WriteEvent`
 publishing it on the bounded channel is the separate step `enqueue`, so two writers' notifications can be
 enqueued in either order), `notify` (notificator: dequeue → `getPipesForSource` with its cache → `onWriteEvent` →
 `startWorker`), worker steps `wopen` (cursor from the saved `Pos`), `wcopy` (`Service.Write(noEvent)` of what the
-cursor sees — through `siterator`, which appends the provenance fields; **the compiled filter is consulted only
-if `Cfg.applyFilter`**, which the extractor regenerates from the source: today `fltF` has no use site), `wsave`
+cursor sees — through `siterator`, which appends the provenance fields and **steps over the events the compiled filter
+rejects iff `Cfg.applyFilter`**, which the extractor regenerates from the source: since the repair f08ebbf of finding F09
+`siterator.Get` calls `fltF`; the cursor moves over everything it saw, accepted or not), `wsave`
 (`saveState`), `wtimeout` (the wait timed out or the context ended), `wdone` (`workerDone`: clear `wCharged`,
 re-arm if `Pos < LastKnwnPos`), `create`, `delete`, `shutdown`/`halt`/`restart`.
 -/
